@@ -564,6 +564,10 @@ func (s *Sim) finish() {
 }
 
 func (s *Sim) teardown() {
+	// What follows is not part of the decision trace: its choices come from a
+	// stream of their own, so that a replayed trace (which has drawn nothing so
+	// far) tears down exactly as the recorded run did.
+	s.rng = rand.New(rand.NewPCG(s.Cfg.Seed^0x2545F4914F6CDD1D, 0x9FB21C651E98DF25))
 	// close every client, let the gateway clean up, wait out the eviction delay
 	for _, c := range s.Clients {
 		if c.State == "open" {
